@@ -179,6 +179,35 @@ fn not_c03_wellformed(t: &str) -> bool {
     })
 }
 
+/// the text with every `Name:` + empty first line + continuation line rewritten to the inline layout
+/// `Name: <first continuation line>`; None when the text has no such field
+fn inline_layout(t: &str) -> Option<String> {
+    let lines: Vec<&str> = t.split('\n').collect();
+    let mut out: Vec<String> = vec![];
+    let mut changed = false;
+    let mut i = 0;
+    while i < lines.len() {
+        let l = lines[i];
+        let is_key_line = !l.is_empty() && !l.starts_with([' ', '\t', '#']) && match l.split_once(':') {
+            Some((k, rest)) => !k.is_empty() && !k.contains([' ', '\t']) && rest.chars().all(|c| c == ' ' || c == '\t'),
+            None => false,
+        };
+        if is_key_line && i + 1 < lines.len() && lines[i + 1].starts_with([' ', '\t']) {
+            let cont = lines[i + 1].trim_start_matches([' ', '\t']);
+            if !cont.is_empty() && !cont.starts_with('#') {
+                let k = l.split_once(':').unwrap().0;
+                out.push(format!("{}: {}", k, cont));
+                changed = true;
+                i += 2;
+                continue;
+            }
+        }
+        out.push(l.to_string());
+        i += 1;
+    }
+    if changed { Some(out.join("\n")) } else { None }
+}
+
 pub fn handle(op: &str, a: &[&str]) -> Option<Resp> {
     let kind = op.strip_prefix("typed.")?;
     let (t, _e) = match a {
@@ -233,11 +262,43 @@ pub fn handle(op: &str, a: &[&str]) -> Option<Resp> {
                     "diff".to_string()
                 }
             }
-            (Err(_), Ok(_)) => "diff".to_string(),
-            (Ok(_), Err(_)) => "err".to_string(),
+            (Err(e), Ok(s)) => {
+                // the clause is "the typed value -- or the error -- is the same": a stanza the lossy-reader
+                // struct rejects although the lossless view of the same (single, well-formed) paragraph
+                // is accepted.  Two stanzas are no such case: the lossy paragraph reader wants exactly
+                // one, the lossless one takes the first.
+                if fail.is_none() && !not_c03_wellformed(&t) && LP::from_str(&t).is_ok() {
+                    fail = Some(format!("rejected ({}) although the lossless view of the same text is accepted: {}", show_err(e), s));
+                }
+                "diff".to_string()
+            }
+            (Ok(v1), Err(e)) => {
+                if fail.is_none() && !not_c03_wellformed(&t) {
+                    fail = Some(format!("accepted ({}) although the lossless view of the same text is rejected: {}", v1.show(), e));
+                }
+                "err".to_string()
+            }
             (Err(_), Err(_)) => "err".to_string(),
         },
     };
+    // the six kinds read through the LOSSLESS reader: a field written `Name:` + empty first line +
+    // continuation lines reads exactly like the inline layout `Name: first` + the other lines (that is
+    // what the lossless reader shows; for the lossy-reader kinds this is finding F-C20-9, seen above)
+    if !matches!(kind, "release" | "source" | "package") && !not_c03_wellformed(&t) {
+        if let Some(inline) = inline_layout(&t) {
+            let a = match &r1 {
+                Ok(v) => Ok(v.show()),
+                Err(e) => Err(show_err(e)),
+            };
+            let b = match parse_kind(kind, &inline)? {
+                Ok(v) => Ok(v.show()),
+                Err(e) => Err(show_err(&e)),
+            };
+            if fail.is_none() && a != b {
+                fail = Some(format!("`Name:` + continuation layout reads differently from the inline layout: {:?} vs {:?}", a, b));
+            }
+        }
+    }
     // apt Packages stanza: the typed lossless accessor and the lossy struct must show the same md5
     if kind == "package" {
         if let (Ok(v1), Ok(p)) = (&r1, LL::from_str(&t)) {
@@ -336,11 +397,29 @@ const KINDS: &[KindSpec] = &[
 
 type Entries = Vec<(String, String)>;
 
-fn render_para(e: &Entries, comments: bool, rng: &mut Rng) -> String {
+/// `layout[i]` for field i: 0 (or absent) = inline first line, 1 = `Name:` + every line of the value as a
+/// continuation line (the layout of Package-List / Files / Checksums-* / Build-Depends in real indices;
+/// finding F-C20-9 for the lossy-reader kinds), 2 = the same with a blank after the colon
+fn render_para_l(e: &Entries, comments: bool, rng: &mut Rng, layout: &[u8]) -> String {
     let mut t = String::new();
-    for (k, v) in e {
+    for (i, (k, v)) in e.iter().enumerate() {
         if comments && rng.chance(12) {
             t.push_str("# comment\n");
+        }
+        let mode = layout.get(i).copied().unwrap_or(0);
+        if mode != 0 && v.split('\n').any(|l| !l.is_empty()) {
+            t.push_str(k);
+            t.push_str(if mode == 2 { ": \n" } else { ":\n" });
+            for (j, l) in v.split('\n').enumerate() {
+                if l.is_empty() {
+                    if j > 0 {
+                        t.push_str(" .\n");
+                    }
+                } else {
+                    t.push_str(&format!(" {}\n", l));
+                }
+            }
+            continue;
         }
         let mut lines = v.split('\n');
         let first = lines.next().unwrap_or("");
@@ -367,6 +446,10 @@ fn render_para(e: &Entries, comments: bool, rng: &mut Rng) -> String {
 }
 
 fn render_doc(paras: &[Entries], comments: bool, rng: &mut Rng) -> String {
+    render_doc_l(paras, comments, rng, &[])
+}
+
+fn render_doc_l(paras: &[Entries], comments: bool, rng: &mut Rng, layouts: &[Vec<u8>]) -> String {
     let mut t = String::new();
     if rng.chance(5) {
         t.push('\n');
@@ -381,7 +464,7 @@ fn render_doc(paras: &[Entries], comments: bool, rng: &mut Rng) -> String {
                 t.push_str("# between paragraphs\n\n");
             }
         }
-        t.push_str(&render_para(p, comments, rng));
+        t.push_str(&render_para_l(p, comments, rng, layouts.get(i).map(|v| v.as_slice()).unwrap_or(&[])));
     }
     if rng.chance(6) && t.ends_with('\n') {
         t.pop();
@@ -625,9 +708,124 @@ pub fn generate_c20(tier: &str, seed: u64, out: &mut Out) {
                 }
             }
         }
+        // ---- the layout `Name:` + empty first line + continuation lines, for every field of every
+        // struct (finding F-C20-9 for the lossy-reader kinds release / source / package; for the six
+        // kinds read through the lossless reader the typed value must be that of the inline layout: a
+        // positive test, see `inline_layout`)
+        for id in ks.structs {
+            let row = struct_row(id).expect("row");
+            let base: Vec<Entries> = match (ks.kind, *id) {
+                ("control", "control.Binary") => vec![full("control.Source", 0, &mut r0)],
+                ("copyright", "debiancopyright.FilesParagraph") | ("copyright", "debiancopyright.LicenseParagraph") => vec![full("debiancopyright.Header", 0, &mut r0)],
+                _ => vec![],
+            };
+            let nbase = base.len();
+            for (i, f) in row.fields.iter().enumerate() {
+                let (good, bad) = crate::derive::pool(f);
+                for (n, t) in good.iter().chain(bad.iter()).enumerate() {
+                    for mode in [1u8, 2u8] {
+                        if mode == 2 && n > 0 {
+                            continue;
+                        }
+                        let mut p = full(id, 0, &mut r0);
+                        p[i].1 = t.to_string();
+                        let mut lay = vec![0u8; p.len()];
+                        lay[i] = mode;
+                        let mut d = base.clone();
+                        d.push(p);
+                        let mut lays: Vec<Vec<u8>> = vec![vec![]; nbase];
+                        lays.push(lay);
+                        emit(out, render_doc_l(&d, false, &mut r0, &lays));
+                    }
+                }
+            }
+            // every field of the paragraph in that layout at once
+            let p = full(id, 0, &mut r0);
+            let lay = vec![1u8; p.len()];
+            let mut d = base.clone();
+            d.push(p);
+            let mut lays: Vec<Vec<u8>> = vec![vec![]; nbase];
+            lays.push(lay);
+            emit(out, render_doc_l(&d, false, &mut r0, &lays));
+            // ---- field names: a key differing only in letter case is another field (names are matched
+            // exactly), a duplicated field (the first one is read), for every struct
+            for i in 0..row.fields.len() {
+                if i > 2 && !row.fields[i].optional {
+                    continue;
+                }
+                for variant in 0..3 {
+                    let mut p = full(id, 0, &mut r0);
+                    match variant {
+                        0 => p[i].0 = p[i].0.to_lowercase(),
+                        1 => p[i].0 = p[i].0.to_uppercase(),
+                        _ => {
+                            let dup = (p[i].0.clone(), full(id, 1, &mut r0)[i].1.clone());
+                            p.push(dup.clone());
+                            let mut q = full(id, 0, &mut r0);
+                            q.insert(0, dup);
+                            let mut d = base.clone();
+                            d.push(q);
+                            emit(out, render_doc(&d, false, &mut r0));
+                        }
+                    }
+                    let mut d = base.clone();
+                    d.push(p);
+                    emit(out, render_doc(&d, false, &mut r0));
+                }
+            }
+        }
+        match ks.kind {
+            "copyright" => {
+                let h = full("debiancopyright.Header", 0, &mut r0);
+                let f = full("debiancopyright.FilesParagraph", 0, &mut r0);
+                let l = full("debiancopyright.LicenseParagraph", 0, &mut r0);
+                // a header that also carries Files / License / Copyright; a later paragraph that carries
+                // Format (roles go by Files / License only); `files:` / `license:` in lower case
+                let mut hf = h.clone();
+                hf.extend(f.clone());
+                let mut ff = f.clone();
+                ff.push(("Format".into(), "x".into()));
+                let mut lf = vec![("Format".to_string(), "x".to_string())];
+                lf.extend(l.clone());
+                let mut fl = f.clone();
+                fl.extend(l.clone().into_iter().filter(|e| e.0 != "License"));
+                let lower = |p: &Entries| -> Entries { p.iter().map(|e| (e.0.to_lowercase(), e.1.clone())).collect() };
+                for d in [vec![hf.clone()], vec![hf.clone(), f.clone()], vec![h.clone(), ff.clone()], vec![h.clone(), lf.clone()],
+                    vec![h.clone(), fl.clone()], vec![h.clone(), lower(&f)], vec![h.clone(), lower(&l)], vec![lower(&h)]] {
+                    emit(out, render_doc(&d, false, &mut r0));
+                }
+            }
+            "control" => {
+                let s = full("control.Source", 0, &mut r0);
+                let b = full("control.Binary", 0, &mut r0);
+                let lower = |p: &Entries| -> Entries { p.iter().map(|e| (e.0.to_lowercase(), e.1.clone())).collect() };
+                for d in [vec![lower(&s)], vec![lower(&s), b.clone()], vec![s.clone(), lower(&b)], vec![lower(&b), s.clone()]] {
+                    emit(out, render_doc(&d, false, &mut r0));
+                }
+            }
+            "dep3" => {
+                // F-C20-4: a header none of whose fields is a struct key (names are matched exactly:
+                // `from:` / `subject:` in lower case are unknown fields, no fall-back applies)
+                for t in ["from: F <f@e.org>\n", "subject: s\n", "from: f\nsubject: s\n", "author: a\n", "From: F <f@e.org>\nsubject: s\n"] {
+                    emit(out, t.to_string());
+                }
+            }
+            "repos" => {
+                // F-C20-10: a Signed-By key block whose first line starts with '#'
+                let a = full("aptsources.Repository", 0, &mut r0);
+                for v in ["#a\nb", "#a", "a\nb", "\na\nb", "\n#a\nb", "#a\n#b"] {
+                    let mut p = a.clone();
+                    for e in p.iter_mut() {
+                        if e.0 == "Signed-By" {
+                            e.1 = v.to_string();
+                        }
+                    }
+                    emit(out, render_doc(&[p], false, &mut r0));
+                }
+            }
+            _ => {}
+        }
         // ---- seeded random documents
-        let already = out.lines.len();
-        let _ = already;
         for _ in 0..per_kind {
             let variant = usize::MAX;
             let drop = 10 + rng.below(80);
@@ -686,7 +884,37 @@ pub fn generate_c20(tier: &str, seed: u64, out: &mut Out) {
                 let j = rng.below(paras[i].len() + 1);
                 paras[i].insert(j, ("X-Foreign".to_string(), "kept".to_string()));
             }
-            let text = render_doc(&paras, ks.comments && rng.chance(40), &mut rng);
+            // a duplicated field (another value, anywhere in the paragraph), a key in another letter case
+            if rng.chance(5) && !paras.is_empty() {
+                let i = rng.below(paras.len());
+                if !paras[i].is_empty() {
+                    let j = rng.below(paras[i].len());
+                    let k = paras[i][j].0.clone();
+                    let at = rng.below(paras[i].len() + 1);
+                    let v = if rng.chance(50) { paras[i][j].1.clone() } else { "dup".to_string() };
+                    paras[i].insert(at, (k, v));
+                }
+            }
+            if rng.chance(5) && !paras.is_empty() {
+                let i = rng.below(paras.len());
+                if !paras[i].is_empty() {
+                    let j = rng.below(paras[i].len());
+                    paras[i][j].0 = if rng.chance(50) { paras[i][j].0.to_lowercase() } else { paras[i][j].0.to_uppercase() };
+                }
+            }
+            // a later paragraph carrying the first paragraph's first field (copyright: Format)
+            if rng.chance(3) && paras.len() > 1 && !paras[0].is_empty() {
+                let e = paras[0][0].clone();
+                let i = 1 + rng.below(paras.len() - 1);
+                paras[i].push(e);
+            }
+            // some documents in the `Name:` + continuation layout (a third of their fields)
+            let layouts: Vec<Vec<u8>> = if rng.chance(12) {
+                paras.iter().map(|p| p.iter().map(|_| if rng.chance(35) { 1 + (rng.below(4) == 0) as u8 } else { 0 }).collect()).collect()
+            } else {
+                vec![]
+            };
+            let text = render_doc_l(&paras, ks.comments && rng.chance(40), &mut rng, &layouts);
             emit(out, text);
         }
     }
